@@ -682,8 +682,15 @@ def _copy(ex, v):
     return v
 
 
+def _defaultdict(ex, factory=None, *a):
+    import collections
+    if ((isinstance(factory, ClassRef) and factory.name == "list") or factory is _list) and not a:
+        return collections.defaultdict(list)  # the engine indexes dict subclasses natively: a missing key yields a fresh list
+    raise Unsupported("defaultdict with this factory")
+
+
 BUILTINS = {
-    "any": _any, "all": _all, "round": _round, "float": _float, "int": _int, "range": _range, "len": _len,
+    "defaultdict": _defaultdict, "any": _any, "all": _all, "round": _round, "float": _float, "int": _int, "range": _range, "len": _len,
     "enumerate": _enumerate, "chain": _chain, "isinstance": _isinstance, "bool": _bool, "sum": _sum,
     "max": _max, "min": _min, "zip": _zip, "set": _set, "list": _list, "tuple": _tuple, "sorted": _sorted,
     "abs": _abs, "str": _str, "next": _next_lazy, "hasattr": _hasattr, "callable": _callable,
